@@ -69,9 +69,9 @@ func searchLang(n *syntax.Regexp) (*Term, error) {
 		endA = true
 		items = items[:len(items)-1]
 	}
-	// a single remaining group that is an alternation with its own anchors: distribute
-	if len(items) == 1 {
-		inner := stripCapture(items[0])
+	// an item that is an alternation carrying its own anchors (e.g. (/|$)): distribute it
+	for idx, it := range items {
+		inner := stripCapture(it)
 		if inner.Op == syntax.OpAlternate && hasAnchor(inner) {
 			var alts []*Term
 			for _, s := range inner.Sub {
@@ -79,7 +79,9 @@ func searchLang(n *syntax.Regexp) (*Term, error) {
 				if startA {
 					sub.Sub = append(sub.Sub, &syntax.Regexp{Op: syntax.OpBeginText})
 				}
+				sub.Sub = append(sub.Sub, items[:idx]...)
 				sub.Sub = append(sub.Sub, s)
+				sub.Sub = append(sub.Sub, items[idx+1:]...)
 				if endA {
 					sub.Sub = append(sub.Sub, &syntax.Regexp{Op: syntax.OpEndText})
 				}
